@@ -299,5 +299,7 @@ def run(ctx):
 
     return {"runs": runs, "violations": violations,
             "assumptions": assumptions + ["rare expression: -d / -k values are compared as urfave/cli delivers them (white space "
-                                          "around a value trimmed, commas split values)", "e2e step: Python json.loads(strict=True) as JSON oracle; inputs are valid UTF-8 "
+                                          "around a value trimmed, commas split values; ill-formed UTF-8 bytes of a value arrive as U+FFFD because urfave/cli "
+                                          "copies a StringSlice flag between its names through encoding/json - modelled as cliValue in Model/C16Cmd.lean and "
+                                          "checked in process by the correspondence op xout)", "e2e step: Python json.loads(strict=True) as JSON oracle; inputs are valid UTF-8 "
                                           "(invalid UTF-8 is covered by the in-process correspondence)"]}
